@@ -444,17 +444,22 @@ def mat_attr(v):
 _host_cache = {}
 
 
-def host_functions(names, nested):
-    """compile `host(__v)` with the given local names (and `outer` calling it when nested); returns (fn, marker line)"""
-    key = (tuple(names), nested)
+def host_functions(names, nested, capture=False):
+    """compile `host(__v)` with the given local names (and `outer` calling it when nested); returns (fn, marker line).
+    capture: the marker line is the `return` itself, so a capture-stage snapshot completes on the return event"""
+    key = (tuple(names), nested, capture)
     if key in _host_cache:
         return _host_cache[key]
     lines = ['def host(__v):']
     for i, n in enumerate(names):
         lines.append(f'    {n} = __v[{i}]')
-    lines.append('    marker = len(__v)')
-    marker = len(lines)
-    lines.append('    return marker')
+    if capture:
+        lines.append('    return len(__v)')
+        marker = len(lines)
+    else:
+        lines.append('    marker = len(__v)')
+        marker = len(lines)
+        lines.append('    return marker')
     lines.append('def outer(__v):')
     lines.append('    kept = [len(__v), "outer local"]')
     lines.append('    return host(__v) + len(kept)')
@@ -484,9 +489,16 @@ def collect_snapshot(case):
     rig = Rig(plugins=[make_deco(case['attrs'])])
     try:
         rig.config.resource = Resource({k: mat_attr(v) for k, v in case['resource']})
-        fn, marker = host_functions(case['names'], case['nested'])
+        fn, marker = host_functions(case['names'], case['nested'], bool(case.get('capture')))
         rig.clock = time.time_ns()      # the frame collector measures its time budget against the real clock
         trig = build_trigger(case['tp_id'], 'gen_host.py', marker, dict(case['args']), list(case['watches']), [])
+        if case.get('capture'):
+            # a capture-stage snapshot (only reachable through a directly constructed action, as in the unit tests):
+            # it is completed on the `return` event and records the returned value with source CAPTURE
+            from deep.api.tracepoint.trigger import LocationAction, Trigger, LineLocation, Location
+            acts = [LocationAction(a.id, a.condition, dict(a.config, stage='line_capture'), a.action_type)
+                    for a in trig.actions]
+            trig = Trigger(LineLocation('gen_host.py', marker, Location.Position.CAPTURE), acts)
         rig.install([trig])
         vals = []
         for spec in case['locals']:
@@ -665,6 +677,17 @@ def loopback():
     return _loopback
 
 
+def all_source_watches(tag):
+    """a watch result and a watch error for EVERY source the agent defines (eventsnapshot.WATCH_SOURCE_*)"""
+    from deep.api.tracepoint import eventsnapshot as es
+    out = []
+    for name in sorted(k for k in vars(es) if k.startswith('WATCH_SOURCE_')):
+        src = getattr(es, name)
+        out.append(es.WatchResult(src, 'ok_%s_%s' % (src, tag), es.VariableId('1', 'r_%s' % src)))
+        out.append(es.WatchResult(src, 'bad_%s_%s' % (src, tag), None, 'error from %s' % src))
+    return out
+
+
 def hand_snapshot(spec):
     """a small real EventSnapshot for the push path (attributes from the spec)"""
     from deep.api.tracepoint import EventSnapshot, TracePointConfig, StackFrame, Variable, VariableId, WatchResult
@@ -674,6 +697,8 @@ def hand_snapshot(spec):
                       [StackFrame('/app/a.py', 'a.py', 'fn', 3, [VariableId('1', 'x')], None, app_frame=True)],
                       {'1': Variable('int', '5', '99', [], False)})
     s.add_watch_result(WatchResult('WATCH', 'x', VariableId('1', 'x')))
+    for w in all_source_watches(spec['tp_id']):
+        s.add_watch_result(w)
     for k, v in spec['attrs']:
         s.attributes[k] = mat_attr(v)
     s.complete()
@@ -807,6 +832,8 @@ def rich_snapshot(spec):
                                        ['w_' + tag], []), spec['ts'],
                       Resource({k: mat_attr(v) for k, v in spec['resource']}), frames, lookup)
     s.add_watch_result(WatchResult('WATCH', 'w_' + tag, VariableId('1', 'w_' + tag)))
+    for w in all_source_watches(tag):
+        s.add_watch_result(w)
     if spec.get('error_watch'):
         s.add_watch_result(WatchResult('LOG', 'bad_' + tag, None, spec['error_watch'] if spec['error_watch'] != '-' else ''))
     for k, v in spec['attrs']:
@@ -1226,6 +1253,8 @@ def gen_snapshot(rng, stream='main'):
             'tp_id': rng.choice(['tp-1', 'é-tp', 'a' * 40]), 'args': args, 'watches': watches,
             'attrs': [gen_attr(rng, i) for i in range(rng.choice([0, 0, 1, 2, 4]))],
             'resource': [gen_attr(rng, 10 + i) for i in range(rng.choice([0, 1, 1, 3]))]}
+    if rng.random() < 0.2:
+        case['capture'] = True             # completed on the return event: a CAPTURE watch result from the collector
     if stream == 'surrogate':
         where = rng.choice(['local', 'local', 'nested', 'attr', 'resource', 'log', 'watch', 'key'])
         bad = rng.choice(BAD)
@@ -1395,6 +1424,7 @@ def corpus():
     return [
         base,
         two,                                                                    # two uploads converting at once
+        dict(base, capture=True, nested=False),                                 # CAPTURE source from the collector
         dict(base, attrs=[['status', {'sub': 'HTTPStatus.NOT_FOUND'}], ['color', {'sub': 'Color.RED'}],
                           ['ratio', {'sub': 'Ratio(0.25)'}]], resource=[['level', {'sub': 'Level.HIGH'}],
                                                                         ['prio', {'sub': 'Prio.TOP'}]]),
